@@ -110,9 +110,15 @@ func Register[T any](el *EventLoop, callback EventHandler[T], opts ...HandlerOpt
 		el.handlers[t][i] = h
 	}
 
+	unregistered := false
 	return func() {
 		el.mut.Lock()
 		defer el.mut.Unlock()
+		if unregistered {
+			// the slot may have been reused by another handler since the first call
+			return
+		}
+		unregistered = true
 		el.handlers[t][i].callback = nil
 	}
 }
